@@ -49,7 +49,7 @@ func SeverityTable(p *core.Program, r *core.Report, rule string) {
 				if kv, ok := el.(*ast.KeyValueExpr); ok {
 					vals[core.ExprStr(kv.Key)] = kv.Value
 				} else if i < st.NumFields() {
-					vals[st.Field(i).Name()] = el
+					vals[core.RefName(st.Field(i))] = el
 				}
 			}
 			errExpr := vals["err"]
@@ -106,7 +106,7 @@ func SeverityTable(p *core.Program, r *core.Report, rule string) {
 			if !isC || len(c.Args) != 5 {
 				return true
 			}
-			if fn := core.Callee(info, c); fn == nil || fn.Name() != "newConnectivityAnalysisError" {
+			if fn := core.Callee(info, c); fn == nil || core.RefName(fn) != "newConnectivityAnalysisError" {
 				return true
 			}
 			a3, a4 := core.ExprStr(c.Args[3]), core.ExprStr(c.Args[4])
@@ -135,7 +135,7 @@ func StopGates(p *core.Program, r *core.Report, rule string) {
 		overAll := false
 		ast.Inspect(fd.Decl.Body, func(nd ast.Node) bool {
 			if rs, ok := nd.(*ast.RangeStmt); ok {
-				if f := core.FieldOf(info, rs.X); f != nil && f.Name() == "errors" {
+				if f := core.FieldOf(info, rs.X); f != nil && core.RefName(f) == "errors" {
 					overAll = true
 				}
 			}
@@ -176,8 +176,8 @@ func StopGates(p *core.Program, r *core.Report, rule string) {
 			}
 			// the library form of the same existential: slices.ContainsFunc(errors, func(e) bool { ... })
 			if c, isC := ast.Unparen(ret.Results[0]).(*ast.CallExpr); isC && len(c.Args) == 2 {
-				if fn := core.Callee(info, c); fn != nil && fn.Pkg() != nil && fn.Pkg().Path() == "slices" && fn.Name() == "ContainsFunc" {
-					if fl := core.FieldOf(info, c.Args[0]); fl != nil && fl.Name() == "errors" {
+				if fn := core.Callee(info, c); fn != nil && fn.Pkg() != nil && fn.Pkg().Path() == "slices" && core.RefName(fn) == "ContainsFunc" {
+					if fl := core.FieldOf(info, c.Args[0]); fl != nil && core.RefName(fl) == "errors" {
 						if lit, isLit := ast.Unparen(c.Args[1]).(*ast.FuncLit); isLit {
 							overAll = true
 							lw := facts.NewWalker(info)
@@ -229,7 +229,7 @@ func StopGates(p *core.Program, r *core.Report, rule string) {
 			if !ok {
 				return
 			}
-			if fn := core.Callee(info, c); fn != nil && fn.Name() == "stopProcessing" {
+			if fn := core.Callee(info, c); fn != nil && core.RefName(fn) == "stopProcessing" {
 				stopCalls++
 				stopPos = c.Pos()
 				if len(w.Loops) > 0 {
@@ -239,7 +239,7 @@ func StopGates(p *core.Program, r *core.Report, rule string) {
 		}
 		ast.Inspect(fd.Decl.Body, func(nd ast.Node) bool {
 			if as, ok := nd.(*ast.AssignStmt); ok && len(as.Lhs) == 1 {
-				if f := core.FieldOf(info, as.Lhs[0]); f != nil && f.Name() == "errors" && as.Pos() > lastAppendPos {
+				if f := core.FieldOf(info, as.Lhs[0]); f != nil && core.RefName(f) == "errors" && as.Pos() > lastAppendPos {
 					lastAppendPos = as.Pos()
 				}
 			}
@@ -256,7 +256,7 @@ func StopGates(p *core.Program, r *core.Report, rule string) {
 				return true
 			}
 			if c, ok := ast.Unparen(ifs.Cond).(*ast.CallExpr); ok {
-				if fn := core.Callee(info, c); fn != nil && fn.Name() == "stopProcessing" {
+				if fn := core.Callee(info, c); fn != nil && core.RefName(fn) == "stopProcessing" {
 					for _, st := range ifs.Body.List {
 						if as, ok := st.(*ast.AssignStmt); ok && len(as.Rhs) == 1 {
 							if v, _ := core.ConstString(info, as.Rhs[0]); v == "true" {
@@ -280,7 +280,7 @@ func StopGates(p *core.Program, r *core.Report, rule string) {
 		ast.Inspect(fd.Decl.Body, func(nd ast.Node) bool {
 			if c, ok := nd.(*ast.CallExpr); ok {
 				if fn := core.Callee(info, c); fn != nil {
-					switch fn.Name() {
+					switch core.RefName(fn) {
 					case "getConnlistAnalysis":
 						analysis = append(analysis, c)
 					case "computeDiffFromConnlistResults":
@@ -343,7 +343,7 @@ func StopGates(p *core.Program, r *core.Report, rule string) {
 				}
 				return true
 			})
-			r.Check(bad == "" && tested, rule+"-scan", fmt.Sprintf("%s: tests the scanner's error list %s by its length", cs.In.Key(), ev.Name()), p.Pos(cs.Call.Pos()),
+			r.Check(bad == "" && tested, rule+"-scan", fmt.Sprintf("%s: tests the scanner's error list %s by its length", cs.In.Key(), core.RefName(ev)), p.Pos(cs.Call.Pos()),
 				"len(errs) > 0", "the scanner always returns a non-nil (possibly empty) error slice; this caller's test ("+bad+") is then always true, so with stop-on-error a directory read without errors yields no report")
 		}
 	}
@@ -356,7 +356,7 @@ func gateAnalysis(p *core.Program, r *core.Report, rule string, fd *core.FuncDec
 	var analysis *ast.CallExpr
 	ast.Inspect(fd.Decl.Body, func(nd ast.Node) bool {
 		if c, ok := nd.(*ast.CallExpr); ok {
-			if fn := core.Callee(info, c); fn != nil && fn.Name() == analysisName {
+			if fn := core.Callee(info, c); fn != nil && core.RefName(fn) == analysisName {
 				analysis = c
 			}
 		}
@@ -436,7 +436,7 @@ func ErrorRecording(p *core.Program, r *core.Report, rule string) {
 			// state: 1 once an append to errors happened; reset is not needed (monotone)
 			w.Transfer = func(st int, n ast.Node, f facts.Formula) int {
 				if as, ok := n.(*ast.AssignStmt); ok && len(as.Lhs) == 1 {
-					if fl := core.FieldOf(info, as.Lhs[0]); fl != nil && fl.Name() == "errors" {
+					if fl := core.FieldOf(info, as.Lhs[0]); fl != nil && core.RefName(fl) == "errors" {
 						return 1
 					}
 				}
@@ -444,7 +444,7 @@ func ErrorRecording(p *core.Program, r *core.Report, rule string) {
 					if fn := core.Callee(info, c); fn != nil && records[fn] {
 						return 2 // a recording callee ran: its error (if any) is recorded
 					}
-					if fn := core.Callee(info, c); fn != nil && fn.Name() == "copyFpErrs" {
+					if fn := core.Callee(info, c); fn != nil && core.RefName(fn) == "copyFpErrs" {
 						return 1
 					}
 				}
@@ -461,7 +461,7 @@ func ErrorRecording(p *core.Program, r *core.Report, rule string) {
 						if fn := core.Callee(info, c); fn != nil && (records[fn] || fn == fd.Obj) {
 							return
 						}
-						if fn := core.Callee(info, c); fn != nil && internalErrorsOnly[fn.Name()] != "" {
+						if fn := core.Callee(info, c); fn != nil && internalErrorsOnly[core.RefName(fn)] != "" {
 							return
 						}
 					}
@@ -475,7 +475,7 @@ func ErrorRecording(p *core.Program, r *core.Report, rule string) {
 				if st == 0 {
 					// an error obtained from hasFatalError() is by definition already in the list
 					if c, ok := ast.Unparen(last).(*ast.CallExpr); ok {
-						if fn := core.Callee(info, c); fn != nil && fn.Name() == "hasFatalError" {
+						if fn := core.Callee(info, c); fn != nil && core.RefName(fn) == "hasFatalError" {
 							return
 						}
 					}
@@ -488,7 +488,7 @@ func ErrorRecording(p *core.Program, r *core.Report, rule string) {
 								break
 							}
 							if c, ok := ast.Unparen(d).(*ast.CallExpr); ok {
-								if fn := core.Callee(info, c); fn != nil && fn.Name() == "hasFatalError" {
+								if fn := core.Callee(info, c); fn != nil && core.RefName(fn) == "hasFatalError" {
 									return
 								}
 								break
@@ -526,7 +526,7 @@ func ErrorRecording(p *core.Program, r *core.Report, rule string) {
 			if !m.Obj.Exported() || sig.Results().Len() == 0 || !core.IsErrorType(sig.Results().At(sig.Results().Len()-1).Type()) {
 				continue
 			}
-			if strings.Contains(m.Obj.Name(), "K8sCluster") {
+			if strings.Contains(core.RefName(m.Obj), "K8sCluster") {
 				r.Add(rule, m.Key()+": every error returned is recorded in Errors()", p.Pos(m.Decl.Pos()), core.Excepted, "live-cluster path (API errors of the client are returned as they are); outside the property, which is about manifests")
 				continue
 			}
@@ -698,13 +698,13 @@ func ErrorsNotDropped(p *core.Program, r *core.Report, rule string) {
 			return fn
 		}
 		report := func(c *ast.CallExpr, fn *types.Func, how string) {
-			key := fd.Key() + " | " + fn.Name()
-			construct := fmt.Sprintf("%s: the error of %s is looked at", fd.Key(), fn.Name())
+			key := fd.Key() + " | " + core.RefName(fn)
+			construct := fmt.Sprintf("%s: the error of %s is looked at", fd.Key(), core.RefName(fn))
 			if why, ok := errorDropAllowed[key]; ok {
 				r.Add(rule, construct, p.Pos(c.Pos()), core.Excepted, why)
 				return
 			}
-			r.Bad(rule, construct, p.Pos(c.Pos()), "the error returned by "+fn.Name()+" is discarded ("+how+"): a failure of the analysis (an unreadable document, a conflicting policy, an invalid rule) goes unreported and the result is silently partial")
+			r.Bad(rule, construct, p.Pos(c.Pos()), "the error returned by "+core.RefName(fn)+" is discarded ("+how+"): a failure of the analysis (an unreadable document, a conflicting policy, an invalid rule) goes unreported and the result is silently partial")
 		}
 		ast.Inspect(fd.Decl.Body, func(nd ast.Node) bool {
 			switch x := nd.(type) {
@@ -742,7 +742,7 @@ func ErrorsNotDropped(p *core.Program, r *core.Report, rule string) {
 				if id, isID := last.(*ast.Ident); isID && id.Name == "_" {
 					report(c, fn, "assigned to _")
 				} else {
-					r.OK(rule, fmt.Sprintf("%s: the error of %s is bound at %s", fd.Key(), fn.Name(), core.ExprStr(last)), p.Pos(c.Pos()), "bound to a variable")
+					r.OK(rule, fmt.Sprintf("%s: the error of %s is bound at %s", fd.Key(), core.RefName(fn), core.ExprStr(last)), p.Pos(c.Pos()), "bound to a variable")
 				}
 			}
 			return true
